@@ -34,6 +34,7 @@ ATTRS = {
 }
 # names that exist on the objects but are NOT options or content attributes
 NON_ATTRS = ['bogus', 'files', 'changes', 'options', 'subsections', '_level',
+             '_content',
              'section_id', 'meta_section', 'preamble_section',
              'diff_section', 'content', 'section_name', 'default_options',
              'add_file', 'length', 'my-option', 'Encoding']
@@ -94,7 +95,11 @@ def invalid_value(rng, kind, attr):
         # incl. values that are valid choices of *other* options
         pool = ['mac', 'DOS', 'yaml', '2.0', 'text/html', 'x', 'Unix',
                 'BINARY', '', 'unix', 'dos', 'json', 'text', 'binary',
-                'text/plain', 'text/markdown', '1.0']
+                'text/plain', 'text/markdown', '1.0',
+                # look-alikes of valid choices
+                '\uff11.\uff10', '1.00', '01.0', '1.0\n', ' 1.0',
+                '\uff4a\uff53\uff4f\uff4e', 'un\u0131x', 'dos\u00a0',
+                'text/plain\u2028', 'b\u0131nary', 'JSON', 'Text']
         return rng.choice([v for v in pool if v not in choices])
 
     wrong = {
